@@ -61,6 +61,8 @@ func (c *Ctx) c07Invariants(family string) []invariant {
 func rulesC07(c *Ctx) {
 	R := c.R
 	R.Rule("G", "effect graph extraction: every effect understood, state arguments constant, goroutine/deferred effects absent", 6)
+	R.Rule("P", "payments that arrived while the mint was down are noticed: the mint-quote poll looks the invoice up for every UNPAID quote (shared with C03.R11)", 1)
+	c.ruleMintPollCompleteness("P")
 	R.Rule("T", "crash / storage-fault table: abstract-store invariants at every reachable position and return", 14)
 	R.Rule("M", "model assumptions on the storage code: multi-row writes atomic, state updates unconditional", 8)
 	R.Rule("R5", "melt decision table (shared with C05.R1)", 20)
